@@ -612,16 +612,17 @@ class TemplateNamespace(Namespace):
         return self.template.uri
 
     def _get_star(self):
-        if self.callables:
-            for key in self.callables:
-                yield (key, self.callables[key])
-
         def get(key):
             callable_ = self.template._get_def_callable(key)
             return functools.partial(callable_, self.context)
 
         for k in self.template.module._exports:
             yield (k, get(k))
+        # defs written inside the tag last: they take precedence,
+        # as they do for ns.name and import="name"
+        if self.callables:
+            for key in self.callables:
+                yield (key, self.callables[key])
 
     def __getattr__(self, key):
         if key in self.callables:
@@ -672,14 +673,14 @@ class ModuleNamespace(Namespace):
         return self.module.__file__
 
     def _get_star(self):
-        if self.callables:
-            for key in self.callables:
-                yield (key, self.callables[key])
         for key in dir(self.module):
             if key[0] != "_":
                 callable_ = getattr(self.module, key)
                 if callable(callable_):
                     yield key, functools.partial(callable_, self.context)
+        if self.callables:
+            for key in self.callables:
+                yield (key, self.callables[key])
 
     def __getattr__(self, key):
         if key in self.callables:
